@@ -12,26 +12,38 @@ def tiered(q, t):
 
 SUITES = {
     "paych": dict(
-        mc=[dict(module="MC_Paych", cfg="MC_Paych.cfg", timeout=tiered(600, 1800))],
+        mc=[dict(module="MC_Paych", cfg=tiered("MC_Paych.cfg", "MC_Paych_thorough.cfg"),
+                 timeout=tiered(900, 3600), workers=tiered(6, 14))],
         sim=dict(module="MC_Paych", cfg="Sim_Paych.cfg", num=tiered(150, 3000), depth=16),
         driver="paych",
         driver_args=lambda tier: ["--random", 300 if tier == "quick" else 10000, "--len", 30],
         trace=dict(module="Trace_Paych", cfg_in="Trace_Paych.cfg.in"),
         props=["C16"],
     ),
+    "multisig": dict(
+        mc=[dict(module="MC_Multisig", cfg=tiered("MC_Multisig.cfg", "MC_Multisig_thorough.cfg"),
+                 timeout=tiered(900, 3600), workers=tiered(6, 14))],
+        sim=dict(module="MC_Multisig", cfg="Sim_Multisig.cfg", num=tiered(100, 2000), depth=18),
+        driver="multisig",
+        driver_args=lambda tier: ["--random", 250 if tier == "quick" else 8000, "--len", 30],
+        trace=dict(module="Trace_Multisig", cfg_in="Trace_Multisig.cfg.in"),
+        props=["C12"],
+    ),
 }
 
 # property -> suites whose traces carry formulas tagged with that property
 PROPS = {
     "C16": dict(suites=["paych"], title="Payment channel: vouchers redeem once and the payout is exact"),
+    "C12": dict(suites=["multisig"], title="Multisig: spending needs a quorum of current signers, once, within the lock"),
 }
 
 NOT_BUILT = "check not built yet in this round (work in progress; see DESIGN.md build order)"
 NOT_APPLICABLE = {p: NOT_BUILT for p in
-                  ["C01", "C02", "C03", "C04", "C05", "C06", "C07", "C08", "C09", "C10", "C11", "C12",
+                  ["C01", "C02", "C03", "C04", "C05", "C06", "C07", "C08", "C09", "C10", "C11",
                    "C13", "C14", "C15", "C17", "C18", "C19", "C20"]}
 
 LEVEL_TEXT = {
+    "C12": "Bounded exhaustive TLC model checking of spec/Multisig.tla (every interleaving of propose/approve/cancel by signers and outsiders with admin transactions and re-entrant self-calls executed inside the approving step, within small constants) + conformance: TLC-exported behaviours and random schedules run on the real multisig actor (created through init, inner sends really executed) and each recorded step is validated by TLC against the C12 formulas and the spec's transition function.",
     "C16": "Bounded exhaustive TLC model checking of spec/Paych.tla (all voucher/settle/collect interleavings within small constants, C16 formulas as invariants and action properties) + conformance: TLC-exported behaviours and random schedules are executed on the real paych actor and every recorded step is validated by TLC against the same formulas and the spec's transition relation.",
 }
 LEVEL_NOTE = {
